@@ -152,6 +152,33 @@ Theorem C10_removed_list_pending : forall (payload : qentry -> nat -> nat) cur m
   (forall m, In m ms -> existsb (Nat.eqb m) (qs_models s') = false).
 Proof. exact remove_list_exact. Qed.
 
+(* COPY: a machine restored by pickle.loads(pickle.dumps(..)) or copy.deepcopy(..) (together with its models) is
+   the same world — same registered models, states, helpers and queues; lock map and model_graphs are rebuilt for the
+   registered models, keyed by the copies' ids (C15; stale entries of removed models disappear); no further table — so every statement above, in particular C10_removed_tables / C10_removed, holds for the copy
+   and for every history continued on it.  (That the copy keeps no OTHER reference to its models is not
+   modelled: checked with weakref + gc on every class, extra check gc_after_remove.) *)
+Theorem C10_copy : forall k ev w,
+  step k ev w OCopy = ([], inr None, copy_world k w) /\
+  w_models (copy_world k w) = w_models w /\ w_obj (copy_world k w) = w_obj w /\
+  w_queues (copy_world k w) = w_queues w /\ w_mc (copy_world k w) = w_mc w /\
+  (forall x, In x (w_ctx (copy_world k w)) -> In x (w_ctx w) \/ In x (w_models w)) /\
+  (forall x, In x (w_graphs (copy_world k w)) -> In x (w_graphs w) \/ In x (w_models w)).
+Proof. exact copy_thm. Qed.
+
+(* OWN INITIAL STATE (hierarchical classes, nested / parallel states, any naming): a model added with
+   initial = <state path> (None = the machine's initial) is in exactly the configuration of that state and its
+   initial substates — whatever was added before or after it and whatever states the other models are in; a
+   registered model named again keeps its configuration; no model is listed twice. *)
+Theorem C10_own_initial : forall states dflt adds1 m init adds2 w,
+  ~ In m (map fst (own_run states dflt adds1 w)) ->
+  In (m, own_config states (match init with Some p => p | None => dflt end))
+     (own_run states dflt (adds1 ++ (m, init) :: adds2) w).
+Proof. exact own_initial_thm. Qed.
+
+Theorem C10_own_initial_once : forall states dflt adds w,
+  NoDup (map fst w) -> NoDup (map fst (own_run states dflt adds w)).
+Proof. exact own_run_nodup. Qed.
+
 (* The graph classes have no remove_model: model_graphs keeps the (integer) key of a removed model.
    No reference to the model is kept (the GC check of the harness passes); recorded as an observation. *)
 Theorem C10_removed_graph_key_refuted :
@@ -211,6 +238,9 @@ Print Assumptions C10_dispatch.
 Print Assumptions C10_late_model.
 Print Assumptions C10_late_model_names.
 Print Assumptions C10_add_twice.
+Print Assumptions C10_copy.
+Print Assumptions C10_own_initial.
+Print Assumptions C10_own_initial_once.
 Print Assumptions C10_add_twice_list.
 Print Assumptions C10_in_call_repetition.
 Print Assumptions C10_removed_list_pending.
